@@ -29,6 +29,8 @@ def run(tier, runner):
     r_tail = lifetime.tail(vp)
     r_ov = shape2.overlap(vp)
     r_sm = shape2.self_move(progs)
+    r_lc = shape2.live_count(vp)
+    r_lc.require(3, 'calls of move_n / assign_n / fill')
     r_sm.require(1, 'element-to-element assignments inside one container (shift_left: positive control)')
     r_mem.require(4, 'instantiations with a non relocatable element type')
     r_pair.require(20, 'helper overload instantiations')
@@ -40,13 +42,13 @@ def run(tier, runner):
             w.add('DTOR', 'dtor|%s' % V, '!std::is_trivially_destructible<%s >::value' % V, '%s has a destructor that destroys its elements' % V)
     r_w = witness.run_witnesses(runner, w, [(17, True, False)], ['clang++'], {'DTOR': 'vectors of non trivially destructible elements define a destructor'})
     return {
-        'results': [r_mem, r_re, r_pair, ob['HOLE'], ob['TEMP'], r_tail, r_ov, r_sm] + r_w,
+        'results': [r_mem, r_re, r_pair, ob['HOLE'], ob['TEMP'], r_tail, r_ov, r_sm, r_lc] + r_w,
         'explanation': 'Second sentence decided in full for the analysed matrix: MEMOP - in every instantiation whose element type is neither trivially '
                        'copyable nor declared relocatable no memcpy/memmove/realloc (also inside std algorithm bodies) has an E* argument anywhere in the '
                        'resolved call graph, while for relocatable element types such sites exist (non-vacuity); REALLOC-TR - the allocator\'s reallocate is '
                        'reachable only for relocatable element types; PAIR - the overload selected for each archetype treats destination slots the way its '
                        'producer left them.  First sentence, necessary clauses: HOLE(normal) every opened slot is re-filled exactly once; TAIL no size '
-                       'change without the matching construct/destroy; OVERLAP / SELF-MOVE never assigned onto itself (range moves inside one buffer; single element assignments between two element designators of the same container, in the vector and the set layers); TEMP no manually constructed local escapes '
+                       'change without the matching construct/destroy; OVERLAP / SELF-MOVE never assigned onto itself (range moves inside one buffer; single element assignments between two element designators of the same container, in the vector and the set layers); LIVE-COUNT the helpers that assign onto the constructed part of a destination and construct the rest are given its size at that moment; TEMP no manually constructed local escapes '
                        'destruction; DTOR every vector of a non trivially destructible type destroys [begin,end).',
         'assumptions': ['exactly-once as a count over a history is not decided', 'OptOut (trivially copyable, opted out) may be byte-copied by libstdc++ '
                         'algorithms, as the statement of C02 allows'],
